@@ -90,6 +90,10 @@ def _cbin_cases(N, thorough):
             for nt in (1, 2, 3, 5):
                 for cache in (False, True):
                     yield {'k': 'cbin', 'n': n, 'c': c, 'nt': nt, 'cache': cache}
+    # more decompression threads than CPUs, many chunks
+    for n, c, nt in ((40, 1, 20), (40, 1, 33), (37, 1, 18), (90, 2, 64)):
+        for cache in (False, True):
+            yield {'k': 'cbin', 'n': n, 'c': c, 'nt': nt, 'cache': cache}
 
 
 def drivers(tier):
@@ -224,7 +228,7 @@ def _check_gcb(case):
     with env.scratch() as d:
         offset = [0, 4, 6, 0][(sum(sizes) + 2 * cs) % 4]     # header bytes in front of every file
         paths = rec.write_flat(d, arr, sizes, offset=offset,
-                               order=['asc', 'desc', 'num'][(sum(sizes) + cs) % 3])
+                               order=['asc', 'desc', 'num', 'samebase'][(sum(sizes) + cs) % 4])
         r = must_return('get_ephys_reader', get_ephys_reader, paths, n_channels=nch,
                         dtype=np.int16, offset=offset, sample_rate=rec.rate_for_chunk(cs))
         try:
@@ -245,7 +249,7 @@ def _check_gcb(case):
             sizes2 = [s_ + 1 + k for k, s_ in enumerate(sizes)]
             arr2 = rec.values(sum(sizes2), nch, np.int16, 3)
             paths2 = rec.write_flat(d, arr2, sizes2, offset=offset,
-                                    order=['asc', 'desc', 'num'][(sum(sizes) + cs) % 3])
+                                    order=['asc', 'desc', 'num', 'samebase'][(sum(sizes) + cs) % 4])
             r2 = must_return('get_ephys_reader', get_ephys_reader, paths2, n_channels=nch,
                              dtype=np.int16, offset=offset, sample_rate=rec.rate_for_chunk(cs))
             try:
